@@ -43,6 +43,7 @@ import numpy as np
 
 from harness import core
 from harness.props import c18_vh as _vh   # RealLike terms: Vh / refinement decision / beta (extension)
+from harness.props import c18_deep as _deep   # deep refinement chains, scripted rounds (extension)
 
 TITLE = "Adaptive discretisation / VOGP_AD set surgery vs Lean model"
 RULE = ("space: (d in 1..3, max depth <= 6, op sequence of direct/guarded refinements of random leaves and "
@@ -384,7 +385,9 @@ def _gen_run(ctx, rng, big):
     else:
         model = {"kind": "stub", "s0": rng.choice([0.5, 1.0, 2.0]), "decay": rng.choice([0.5, 0.75, 0.875]),
                  "ls": rng.choice([0.25, 0.5, 1.0]), "var": rng.choice([0.5, 1.0, 2.0])}
-        rounds = rng.choice([30, 50, 80])
+        rounds = rng.choice([30, 50, 80] if big else [20, 30, 40])
+    if not big and in_dim >= 2 and depth_max >= 4:
+        rounds = min(rounds, 25)   # once latched, ε-covering costs O(|S|·|W|) cvxpy solves per round
     if depth_max == 0:
         rounds = 6
     cone = rng.choice(CONES2 if out_dim == 2 else CONES3)
@@ -534,6 +537,14 @@ def gen(ctx):
     n_gate = ctx.n(40, 1500)
     for j in range(n_gate):
         yield _gen_gate(ctx, rng, GATE_VARIANTS[j % len(GATE_VARIANTS)])
+    # structured: refinement chains down to depth 18..26 along corner / face directions; scripted rounds in
+    # which the widest active node is discarded in the round in which it would be refined (c18_deep.py)
+    n_deep, n_round = ctx.n(21, 700), ctx.n(9, 400)
+    for j in range(max(n_deep, n_round)):
+        if j < n_deep:
+            yield _deep.gen_deep(ctx, rng, j)
+        if j < n_round:
+            yield _deep.gen_round(ctx, rng, j)
     n_space, n_run, n_phase = ctx.n(220, 10000), ctx.n(14, 420), ctx.n(160, 6000)
     for j in range(max(n_space, n_run, n_phase)):
         if j < n_space:
@@ -573,6 +584,18 @@ def run_case(ctx, case):
             torch.set_num_threads(nt)
     if kind == "phase":
         return _run_phase(ctx, case)
+    if kind == "deepchain":
+        return _deep.run_deep(ctx, case)
+    if kind == "round":
+        import warnings
+
+        st = np.random.get_state()
+        try:
+            with warnings.catch_warnings():
+                warnings.simplefilter("ignore")
+                return _deep.run_round(ctx, case)
+        finally:
+            np.random.set_state(st)
     if kind == "vh":
         return _vh.run_vh(ctx, case)
     if kind == "beta":
@@ -809,6 +832,12 @@ def _run_algo(ctx, case):
             return
     finally:
         vad.get_gpytorch_model_w_known_hyperparams = saved
+    return _observe_run(ctx, case, alg, problem, dmax, pspec["name"], mspec["kind"])
+
+
+def _observe_run(ctx, case, alg, problem, dmax, pname, mkind, after=None):
+    """Observe a constructed VOGP_AD phase by phase for case["rounds"] rounds: (R) on the real state and (F)
+    against the model replay after every run_one_step()."""
     d, m = problem.in_dim, problem.out_dim
     ctx.count(f"run_d{d}")
     rec = _Recorder(alg)
@@ -828,7 +857,7 @@ def _run_algo(ctx, case):
             key = core.exc_key(e)
             ctx.count("run_crash_info:" + key)
             ctx.info(f"run_one_step raised {type(e).__name__}: {e} at round {nrounds} [{key}] "
-                     f"problem={pspec['name']} in_dim={d} out_dim={m} model={mspec['kind']}")
+                     f"problem={pname} in_dim={d} out_dim={m} model={mkind}")
             status = "crash"
             break
         nrounds += 1
@@ -863,7 +892,12 @@ def _run_algo(ctx, case):
             refined.append(par)
             # set surgery: the refined node leaves its set, its children join the same set
             inS, inP = par in rec.S0, par in rec.P0
-            if par in S or par in P:
+            if not inS and not inP:
+                why = "it had been removed by discarding()" if par in rec.dropped else "it was in neither S nor P"
+                dest = ["S" if k in S else "P" if k in P else "-" for k in kids]
+                viol = ("refined-inactive", f"node {par} was refined although it was not active when evaluate_refine "
+                        f"started ({why}); its children {kids} were put into {dest}")
+            elif par in S or par in P:
                 viol = ("parent-not-removed", f"refined node {par} is still active")
             elif inS and not (set(kids) <= S and not (set(kids) & P)):
                 viol = ("children-wrong-set", f"node {par} was in S but its children are not all in S (only)")
@@ -932,6 +966,8 @@ def _run_algo(ctx, case):
         if done:
             status = "done"
             break
+    if after is not None:
+        after(rec)
     ctx.count("run_status_" + status)
     ctx.count("run_rounds", nrounds)
     ctx.count("run_refinements", len(refined))
